@@ -1221,6 +1221,7 @@ fn mint_case(ctx: &mut Ctx, r: &mut Rng, _i: u64) {
             per_policy.entry(*p).or_default().insert(name.clone(), if *neg { -nb(*mag) } else { nb(*mag) });
         }
         let mut mint = Mint::new();
+        let mut refused: Vec<(u8, Vec<u8>)> = vec![];
         for (p, assets) in &per_policy {
             let mut ma = MintAssets::new();
             for (n, v) in assets {
@@ -1230,7 +1231,13 @@ fn mint_case(ctx: &mut Ctx, r: &mut Rng, _i: u64) {
                     Int::new(&BigNum::from_str(&v.to_string()).unwrap())
                 };
                 if ma.insert(&AssetName::new(n.clone()).unwrap(), &amt).is_err() {
-                    bad.push(("MintAssets.insert/error-on-nonzero".into(), v.to_string()));
+                    // an explicit refusal of a quantity a mint field cannot hold (outside int64) is an error
+                    // reported, not a wrong number
+                    if *v >= -nb(1u64 << 63) && *v < nb(1u64 << 63) {
+                        bad.push(("MintAssets.insert/error-on-nonzero".into(), v.to_string()));
+                    } else {
+                        refused.push((*p, n.clone()));
+                    }
                 }
             }
             mint.insert(&policy(*p), &ma);
@@ -1242,6 +1249,9 @@ fn mint_case(ctx: &mut Ctx, r: &mut Rng, _i: u64) {
         use num_traits::ToPrimitive;
         for (p, assets) in &per_policy {
             for (n, v) in assets {
+                if refused.contains(&(*p, n.clone())) {
+                    continue;
+                }
                 if v.is_positive() {
                     want_pos.insert((*p, n.clone()), v.to_u64().unwrap());
                 } else if v.is_negative() {
